@@ -49,9 +49,14 @@ def check(prog, rep, tier):
                       'configured user name')
     rep.rule('R16.b', 'every view from which a BGP send is reachable carries makesure_peer_establish inside '
                       'login_required; the gate calls the view only when the FSM state is Established')
+    rep.rule('R16.d', 'what goes out is encoded as the session negotiated: the OPEN decoder stores the key four_bytes_as only '
+                      'with the value True, because the protocol enables 4-octet AS encoding on its presence (shared '
+                      'with C05 R05.e)')
     rep.rule('R16.c', 'faithful send: between the request JSON and protocol.send_update the attribute dictionary is '
                       'only re-keyed, given the default LOCAL_PREF on iBGP and the recombined extended '
                       'communities; NLRI and withdraw pass unchanged; success is reported only from the send result')
+    from .c05 import four_octet_flag_rule
+    four_octet_flag_rule(prog, rep, 'R16.d')
     rep.assumptions += ['Flask routing/decorator semantics and Flask-HTTPAuth get_password semantics (trusted base); Flask-HTTPAuth does not authenticate OPTIONS requests',
                         'TOCTOU between the establishment gate and the send is not decided']
     m = prog.module(V1)
